@@ -27,7 +27,8 @@ RULE = (
     "Fit (generated): data sets of 0..2 rows must raise ModelFitError; for generated grids over innovation_filtering / "
     "max_dt_sec / common_subexpression_elimination (1..3 values each, <=4 candidates) and 4..9 rows of data, when "
     "fit_model succeeds every grid-governed field of export_python().config must be a member of its grid list (equal "
-    "for singleton lists), equal the fit_estimator's config field, non-grid fields keep their defaults, and calling the "
+    "for singleton lists; for two thirds of the fits the scorer is replaced by a deterministic one with a unique maximum at a "
+    "drawn grid point and every governed field must equal that point), equal the fit_estimator's config field, non-grid fields keep their defaults, and calling the "
     "names returned by search(Fit_Model) from the start state in order reaches StateId.Fit_Model. Non-trivial = a grid "
     "with >=2 candidate values for some field and a successful fit; distinct = sha1(case)."
 )
@@ -36,7 +37,7 @@ ASSUMPTIONS = [
     "grids limited to <=4 candidates and small models to bound the cost of a fit",
 ]
 BUDGET = {
-    "quick": {"shards": 16, "examples": 30, "wall": 110, "fit_examples": 2},
+    "quick": {"shards": 16, "examples": 30, "wall": 110, "fit_examples": 3},
     "thorough": {"shards": 16, "examples": 15000, "wall": 900, "fit_examples": 200},
 }
 
@@ -240,15 +241,23 @@ def fit_cases(draw):
     if inn is not None:
         grid["innovation_filtering"] = inn
     budget = 4 // max(1, len(grid.get("innovation_filtering", [1])))
-    if budget >= 2 and draw(st.booleans()):
-        grid["max_dt_sec"] = draw(st.lists(st.sampled_from([0.05, 0.1, 0.5]), min_size=1, max_size=2, unique=True))
-    elif draw(st.booleans()):
+    second = draw(st.sampled_from(["multi", "multi", "single", "none"]))
+    if budget >= 2 and second == "multi":
+        grid["max_dt_sec"] = draw(st.lists(st.sampled_from([0.05, 0.1, 0.5]), min_size=2, max_size=2, unique=True))
+    elif second != "none":
         grid["max_dt_sec"] = [draw(st.sampled_from([0.05, 0.2]))]
     if draw(st.integers(0, 3)) == 0:
         grid["common_subexpression_elimination"] = [draw(st.booleans())]
     rows = draw(st.integers(4, 9))
     X = [[draw(models.signed_val()), draw(models.signed_val())] for _ in range(rows)]
-    return {"layer": "fit", "grid": grid, "X": X}
+    # in half of the cases the scorer is replaced by a deterministic one that prefers one drawn grid point, so that the
+    # hyper-parameters the search must select are known
+    target = None
+    if grid and draw(st.sampled_from([True, True, False])):
+        # prefer values that are NOT the first of their list (the first one is what a search falls back to)
+        target = {k: (draw(st.sampled_from(v[1:])) if len(v) > 1 and draw(st.integers(0, 3)) else draw(st.sampled_from(v)))
+                  for k, v in grid.items()}
+    return {"layer": "fit", "grid": grid, "X": X, "target": target}
 
 
 def fit_case(spec, ctx):
@@ -261,6 +270,16 @@ def fit_case(spec, ctx):
     args = {"symbolic_model": {"model": models.ui_model(m)},
             "fit_model": {"parameter_space": parameter_space(m, spec["grid"]), "data": np.array(spec["X"], float)}}
     state = start
+    target = spec.get("target")
+    original_scorer = sm.NisScore
+    if target is not None:
+        class PreferTarget:
+            """score = - number of grid-governed fields that differ from the target (the search maximises the score)"""
+
+            def __call__(self, estimator, X, y=None):
+                return -float(sum(1 for k_, v_ in target.items() if getattr(estimator.config, k_) != v_))
+
+        sm.NisScore = PreferTarget
     try:
         with ctx.watchdog(300, "fit-timeout"):
             with warnings.catch_warnings():
@@ -272,6 +291,8 @@ def fit_case(spec, ctx):
     except Exception as e:
         ctx.event(f"fit_outcome:{type(e).__name__}")
         return
+    finally:
+        sm.NisScore = original_scorer
     ctx.event("fit_outcome:success")
     for field, vals in spec["grid"].items():
         ctx.event(f"grid:{field}:{'singleton' if len(vals) == 1 else 'multi'}{':None' if vals == [None] else ''}")
@@ -295,6 +316,11 @@ def fit_case(spec, ctx):
                 ctx.fail("selected-outside-grid", f"{field} = {got!r} not in {spec['grid'][field]}", spec)
         elif got != getattr(defaults, field):
             ctx.fail("non-grid-field-changed", f"{field} = {got!r}, default {getattr(defaults, field)!r}", spec)
+        if target is not None and field in target and got != target[field]:
+            ctx.fail("exported-filter-does-not-carry-the-selected-hyper-parameters",
+                     f"the scorer prefers {target} (unique maximum over the grid {spec['grid']}); exported {field} = {got!r}", spec)
+    if target is not None:
+        ctx.event("deterministic_scorer_target_checked")
     if any(len(v) >= 2 for v in spec["grid"].values()):
         ctx.nontrivial(spec)
     ctx.sample({"layer": "fit", "grid": spec["grid"], "rows": len(spec["X"]),
